@@ -255,6 +255,51 @@ def scenario_plans():
         yield plan
 
 
+TX_ENDINGS = {
+    'exec-dirty': [(1, [b'watch', b'wk']), (2, [b'set', b'wk', b'x']), (1, [b'multi']), (1, [b'get', b'wk']), (1, [b'exec'])],
+    'exec-ok': [(1, [b'watch', b'wk']), (1, [b'multi']), (1, [b'incr', b'cnt']), (1, [b'exec'])],
+    'discard': [(1, [b'multi']), (1, [b'incr', b'cnt']), (1, [b'discard'])],
+    'execabort': [(1, [b'multi']), (1, [b'nosuchcommand']), (1, [b'exec'])],
+    'exec-arity': [(1, [b'multi']), (1, [b'exec', b'extra']), (1, [b'discard'])],
+    'exec-inner-error': [(2, [b'set', b'str', b'v']), (1, [b'multi']), (1, [b'lpush', b'str', b'x']), (1, [b'exec'])],
+    'exec-inner-blocking': [(1, [b'multi']), (1, [b'blpop', b'l0', b'0']), (1, [b'brpoplpush', b'l0', b'dst', b'0']), (1, [b'exec'])],
+    'unwatch': [(1, [b'watch', b'wk']), (2, [b'set', b'wk', b'x']), (1, [b'unwatch'])],
+}
+
+
+def tx_then_block_plans():
+    """after EXEC / DISCARD - whatever way the transaction ended - the connection is back in normal mode: a blocking pop on an
+    empty list must PARK (inside MULTI/EXEC it never does), and is served by a later push"""
+    for name, ending in sorted(TX_ENDINGS.items()):
+        for blk in ([b'blpop', b'l0', b'0'], [b'brpop', b'l1', b'l0', b'5'], [b'brpoplpush', b'l0', b'dst', b'0']):
+            def plan(s, rng, ending=ending, blk=blk):
+                s.tokens = 0
+                s.in_multi = set()
+                s.cdb = 0
+                yield ('open', 1)
+                yield ('open', 2)
+                for c, f in ending:
+                    yield ('cmd', c, list(f))
+                yield ('cmd', 1, list(blk))
+                yield ('cmd', 2, [b'rpush', b'l0', b'tok'])
+                for _ in range(2):
+                    w = s.impl.waiters.get(1)
+                    if w is None or not w['notified']:
+                        break
+                    yield ('wake', 1)
+                for k in (b'l0', b'dst'):
+                    yield ('cmd', 2, [b'lrange', k, b'0', b'-1'])
+                yield ('cmd', 1, [b'ping'])
+            yield plan
+
+
+def run_tx_then_block(res, seed):
+    for i, plan in enumerate(tx_then_block_plans()):
+        if _run_sched_plan(res, plan, (seed * 11 + i) & 0x7fffffff, 6 + (i + seed) % 2):
+            return True
+    return False
+
+
 def _run_sched_plan(res, plan, hseed, version):
     """-> True when a finding was recorded"""
     rng = random.Random(hseed)
